@@ -305,6 +305,7 @@ RESET_CORE_ENSURES = [
     'final(self).wf()',
     'final(self).conn_id == old(self).conn_id', 'final(self).reconnection == old(self).reconnection', 'final(self).last_received == old(self).last_received',
     'final(self).congestion == old(self).congestion', 'final(self).stall_gate_events == old(self).stall_gate_events', 'final(self).silence_pulls == old(self).silence_pulls',
+    'final(self).rtt == old(self).rtt', 'final(self).last_keepalive_sent == old(self).last_keepalive_sent', 'final(self).last_sent == old(self).last_sent',
 ]
 
 
@@ -555,7 +556,8 @@ GATE_ENSURES = [
     'final(conns).len() == old(conns).len()',
     'forall|i: int| 0 <= i < old(conns).len() ==> (#[trigger] final(conns)[i]).latch_wf()',
     C('C12.select.apply_stall_gate.accounting_untouched', '''forall|i: int| 0 <= i < old(conns).len() ==> #[trigger] old(conns)[i].same_acct(&final(conns)[i])
-            && final(conns)[i].conn_timeout_ms == config.conn_timeout_ms && final(conns)[i].quality_cache == old(conns)[i].quality_cache'''),
+            && final(conns)[i].quality_cache == old(conns)[i].quality_cache'''),
+    C('C04+C08+C12.select.apply_stall_gate.every_link_carries_the_configured_timeout', 'forall|i: int| 0 <= i < old(conns).len() ==> (#[trigger] final(conns)[i]).conn_timeout_ms == config.conn_timeout_ms'),
     C('C10+C12.select.apply_stall_gate.guard_off_clears_every_flag_and_latch', '''!config.stall_deselect ==> forall|i: int| 0 <= i < old(conns).len() ==> !(#[trigger] final(conns)[i]).stall_gated
             && !final(conns)[i].silence_pulled && final(conns)[i].stall_latched_since_ms == 0 && final(conns)[i].stall_recovery_since_ms == 0'''),
     C('C03.select.apply_stall_gate.never_gates_the_last_usable_link', '''(exists|i: int| 0 <= i < final(conns).len() && (#[trigger] final(conns)[i]).usable(current_time_ms))
@@ -563,60 +565,58 @@ GATE_ENSURES = [
     C('C03+C04.select.apply_stall_gate.gated_only_while_a_healthy_link_exists', '''config.stall_deselect ==> forall|i: int| 0 <= i < old(conns).len() ==>
             (#[trigger] final(conns)[i]).stall_gated == (exists_healthy(final(conns)@, current_time_ms) && (final(conns)[i].spec_latched() || final(conns)[i].silence_pulled))'''),
 ]
-_G1 = ['c_nx <= conns.len()', 'conns.len() == old(conns).len()',
-       C('C01+C12.select.apply_stall_gate.timeout_pass_writes_only_the_timeout', 'forall|j: int| 0 <= j < c_nx ==> (#[trigger] conns[j]).same_except_timeout(&old(conns)[j]) && conns[j].conn_timeout_ms == config.conn_timeout_ms'),
-       'forall|j: int| c_nx <= j < conns.len() ==> #[trigger] conns[j] == old(conns)[j]']
-_G2 = ['c_nx <= conns.len()', 'conns.len() == old(conns).len()',
-       C('C01+C12.select.apply_stall_gate.guard_off_pass_writes_only_stall_state', 'forall|j: int| 0 <= j < c_nx ==> (#[trigger] conns[j]).same_except_stall_clear(&old(conns)[j]) && conns[j].conn_timeout_ms == config.conn_timeout_ms'),
-       C('C10+C12.select.apply_stall_gate.guard_off_clears_every_flag_and_latch', '''forall|j: int| 0 <= j < c_nx ==>
-                !(#[trigger] conns[j]).stall_gated && !conns[j].silence_pulled && conns[j].stall_latched_since_ms == 0 && conns[j].stall_recovery_since_ms == 0'''),
-       'forall|j: int| c_nx <= j < conns.len() ==> (#[trigger] conns[j]).same_except_timeout(&old(conns)[j])',
-       C('C04+C08+C12.select.apply_stall_gate.every_link_carries_the_configured_timeout_before_any_gate_decision', 'forall|j: int| c_nx <= j < conns.len() ==> (#[trigger] conns[j]).conn_timeout_ms == config.conn_timeout_ms')]
-_G3 = ['c_nx <= conns.len()', 'conns.len() == old(conns).len()', 'current_time_ms > 0', 'gate_pre_ok(old(conns)@)',
-       C('C12.select.apply_stall_gate.accounting_untouched', '''forall|j: int| 0 <= j < c_nx ==> old(conns)[j].same_acct(&#[trigger] conns[j]) && conns[j].conn_timeout_ms == config.conn_timeout_ms
-                && conns[j].quality_cache == old(conns)[j].quality_cache && conns[j].latch_wf()'''),
-       'forall|j: int| c_nx <= j < conns.len() ==> (#[trigger] conns[j]).same_except_timeout(&old(conns)[j])',
-       C('C04+C08+C12.select.apply_stall_gate.every_link_carries_the_configured_timeout_before_any_gate_decision', 'forall|j: int| c_nx <= j < conns.len() ==> (#[trigger] conns[j]).conn_timeout_ms == config.conn_timeout_ms')]
-_G4 = ['c_nx <= conns.len()', 'conns.len() == old(conns).len()', 'conns.len() == pre4.len()',
-       'any_healthy == exists_healthy(pre4, current_time_ms)',
-       'gate_mid_ok(old(conns)@, pre4, config.conn_timeout_ms)',
-       C('C01+C12.select.apply_stall_gate.final_pass_writes_only_the_gate_flag', 'forall|j: int| 0 <= j < c_nx ==> (#[trigger] conns[j]).same_except_gated(&pre4[j])'),
-       C('C03+C04.select.apply_stall_gate.gated_only_while_a_healthy_link_exists',
-         'forall|j: int| 0 <= j < c_nx ==> (#[trigger] conns[j]).stall_gated == (any_healthy && (pre4[j].spec_latched() || pre4[j].silence_pulled))'),
-       'forall|j: int| c_nx <= j < conns.len() ==> #[trigger] conns[j] == pre4[j]']
-GATE_INVS = [_G1, _G2, _G3, _G4]
+_GB = ['c_nx <= conns.len()', 'conns.len() == c_entry.len()', 'forall|j: int| c_nx <= j < conns.len() ==> #[trigger] conns[j] == c_entry[j]']
+_G1 = _GB + [
+    C('C01+C12.select.apply_stall_gate.timeout_pass_writes_only_the_timeout', 'forall|j: int| 0 <= j < c_nx ==> (#[trigger] conns[j]).same_except_timeout(&c_entry[j])'),
+    C('C04+C08+C12.select.apply_stall_gate.every_link_carries_the_configured_timeout', 'forall|j: int| 0 <= j < c_nx ==> (#[trigger] conns[j]).conn_timeout_ms == config.conn_timeout_ms')]
+_G2 = _GB + [
+    C('C01+C12.select.apply_stall_gate.guard_off_pass_writes_only_stall_state', 'forall|j: int| 0 <= j < c_nx ==> (#[trigger] conns[j]).same_except_stall_flags(&c_entry[j])'),
+    C('C10+C12.select.apply_stall_gate.guard_off_clears_every_flag_and_latch', '''forall|j: int| 0 <= j < c_nx ==>
+                !(#[trigger] conns[j]).stall_gated && !conns[j].silence_pulled && conns[j].stall_latched_since_ms == 0 && conns[j].stall_recovery_since_ms == 0''')]
+_G3 = _GB + [
+    C('C12.select.apply_stall_gate.accounting_untouched', '''forall|j: int| 0 <= j < c_nx ==> (#[trigger] conns[j]).latch_wf() && c_entry[j].same_acct(&conns[j])
+                && conns[j].conn_timeout_ms == c_entry[j].conn_timeout_ms && conns[j].quality_cache == c_entry[j].quality_cache''')]
+_G4 = _GB + [
+    C('C01+C12.select.apply_stall_gate.final_pass_writes_only_the_gate_flag', 'forall|j: int| 0 <= j < c_nx ==> (#[trigger] conns[j]).same_except_gated(&c_entry[j])'),
+    C('C03+C04.select.apply_stall_gate.gated_only_while_a_healthy_link_exists',
+      'forall|j: int| 0 <= j < c_nx ==> (#[trigger] conns[j]).stall_gated == (any_healthy && (c_entry[j].spec_latched() || c_entry[j].silence_pulled))')]
 # loops addressed by a statement they must contain (robust against added / merged loops)
 GATE_LOOPS = {'conn_timeout_ms = config.conn_timeout_ms': _G1, 'clear_stall_latch()': _G2, 'update_stall_latch(': _G3, 'any_healthy &&': _G4}
-GATE_SPLICES = [
-    ('let any_healthy = any_healthy_helper(conns, current_time_ms);', '''let ghost pre4 = conns@;
-    proof { assert(gate_mid_ok(old(conns)@, pre4, config.conn_timeout_ms)); }''', 'after'),
-    ('return;', '''proof {
-            assert forall|i: int| 0 <= i < conns.len() implies #[trigger] old(conns)[i].same_acct(&conns[i]) && conns[i].conn_timeout_ms == config.conn_timeout_ms
-                && conns[i].quality_cache == old(conns)[i].quality_cache && conns[i].latch_wf() by {
-                assert(conns[i].same_except_stall_clear(&old(conns)[i]));
+# `@exit` marks an assertion that restates a postcondition AT AN EXIT (trusted like the postcondition itself even when the function was restructured)
+_EXIT_ACCT = '''assert forall|i: int| 0 <= i < conns.len() implies #[trigger] old(conns)[i].same_acct(&conns[i]) && conns[i].quality_cache == old(conns)[i].quality_cache by {  // @ob C12.select.apply_stall_gate.accounting_untouched @exit
+                %s
             }
+            assert forall|i: int| 0 <= i < conns.len() implies (#[trigger] conns[i]).conn_timeout_ms == config.conn_timeout_ms by {  // @ob C04+C08+C12.select.apply_stall_gate.every_link_carries_the_configured_timeout @exit
+                %s
+            }'''
+GATE_SPLICES = [
+    # state after the timeout pass, named once (ghost): the later passes are related to it through their entry snapshots
+    ('if !config.stall_deselect {', 'let ghost t1 = conns@;', 'before', 'opt'),
+    ('return;', '''proof {
+            %s
+            assert forall|i: int| 0 <= i < conns.len() implies (#[trigger] conns[i]).latch_wf() by { }
             if exists|i: int| 0 <= i < conns.len() && (#[trigger] conns[i]).usable(current_time_ms) {
                 let w = choose|i: int| 0 <= i < conns.len() && (#[trigger] conns[i]).usable(current_time_ms);
                 assert(!conns[w].stall_gated);
             }
-        }''', 'before', 'first'),
-    ('c.update_silence_pull(current_time_ms, min_in_flight, stale_ceiling_ms);', 'let ghost c0 = *c;\n        proof { assert(c0.same_except_timeout(&old(conns)[c_ix as int])); assert(old(conns)[c_ix as int].stall_gate_events < 0x7fff_ffff_ffff_ffff); }', 'before'),
+        }''' % (_EXIT_ACCT % ('assert(conns[i].same_except_stall_flags(&c_entry[i]));', 'assert(conns[i].same_except_stall_flags(&c_entry[i]));')), 'before', 'first'),
+    ('c.update_silence_pull(current_time_ms, min_in_flight, stale_ceiling_ms);', 'let ghost c0 = *c;\n        proof { assert(c0 == c_entry[c_ix as int]); assert(c0.stall_gate_events < 0x7fff_ffff_ffff_ffff && c0.silence_pulls < 0x7fff_ffff_ffff_ffff && c0.latch_wf()); }', 'before'),
     ('c.update_stall_latch(current_time_ms, min_in_flight, stale_ceiling_ms);', 'let ghost c1 = *c;', 'before'),
     ('c.update_stall_latch(current_time_ms, min_in_flight, stale_ceiling_ms);', '''let ghost cfin = *c;
         proof {
-            assert(c0.same_acct(&c1)); assert(c1.same_acct(&cfin)); assert(old(conns)[c_ix as int].same_acct(&c0));
-            assert(old(conns)[c_ix as int].same_acct(&cfin));
-            assert(cfin.conn_timeout_ms == config.conn_timeout_ms && cfin.quality_cache == old(conns)[c_ix as int].quality_cache && cfin.latch_wf());
+            assert(c0.same_acct(&c1)); assert(c1.same_acct(&cfin)); assert(c0.same_acct(&cfin));
+            assert(cfin.conn_timeout_ms == c0.conn_timeout_ms && cfin.quality_cache == c0.quality_cache && cfin.latch_wf());
             assert(conns[c_ix as int] == cfin);
-            assert forall|j: int| 0 <= j < c_nx implies old(conns)[j].same_acct(&#[trigger] conns[j]) && conns[j].conn_timeout_ms == config.conn_timeout_ms
-                && conns[j].quality_cache == old(conns)[j].quality_cache && conns[j].latch_wf() by {
+            assert forall|j: int| 0 <= j < c_nx implies (#[trigger] conns[j]).latch_wf() && c_entry[j].same_acct(&conns[j])
+                && conns[j].conn_timeout_ms == c_entry[j].conn_timeout_ms && conns[j].quality_cache == c_entry[j].quality_cache by {
                 if j != c_ix { assert(conns[j] == c_all[j]); }
             }
-            assert forall|j: int| c_nx <= j < conns.len() implies (#[trigger] conns[j]).same_except_timeout(&old(conns)[j]) && conns[j].conn_timeout_ms == config.conn_timeout_ms by {
-                assert(conns[j] == c_all[j]);
-            }
+            assert forall|j: int| c_nx <= j < conns.len() implies #[trigger] conns[j] == c_entry[j] by { assert(conns[j] == c_all[j]); }
         }''', 'after'),
+    ('let any_healthy = any_healthy_helper(conns, current_time_ms);', '''let ghost pre4 = conns@;
+    proof { assert forall|j: int| 0 <= j < pre4.len() implies (#[trigger] pre4[j]).latch_wf() by { assert(conns[j].latch_wf()); } }''', 'after'),
     ('@END', '''proof {
+        assert(c_entry == pre4);
         assert forall|j: int| 0 <= j < conns.len() implies #[trigger] conns[j].healthy(current_time_ms) == pre4[j].healthy(current_time_ms) by {
             assert(conns[j].same_except_gated(&pre4[j]));
         }
@@ -625,14 +625,13 @@ GATE_SPLICES = [
         if ex_new { let j = choose|j: int| 0 <= j < conns.len() && #[trigger] conns[j].healthy(current_time_ms); assert(pre4[j].healthy(current_time_ms)); }
         if ex_old { let j = choose|j: int| 0 <= j < pre4.len() && #[trigger] pre4[j].healthy(current_time_ms); assert(conns[j].healthy(current_time_ms)); }
         assert(ex_new == ex_old);
-        assert forall|i: int| 0 <= i < conns.len() implies #[trigger] old(conns)[i].same_acct(&conns[i])
-            && conns[i].conn_timeout_ms == config.conn_timeout_ms && conns[i].quality_cache == old(conns)[i].quality_cache && conns[i].latch_wf()
+        %s
+        assert(any_healthy == ex_old);
+        assert forall|i: int| 0 <= i < conns.len() implies (#[trigger] conns[i]).latch_wf()
             && conns[i].stall_gated == (ex_new && (conns[i].spec_latched() || conns[i].silence_pulled)) by {
-            assert(old(conns)[i].same_acct(&pre4[i])); assert(conns[i].same_except_gated(&pre4[i]));
-        }
-        assert forall|i: int| 0 <= i < conns.len() implies (#[trigger] conns[i]).latch_wf() && conns[i].conn_timeout_ms == config.conn_timeout_ms && conns[i].quality_cache == old(conns)[i].quality_cache
-            && conns[i].stall_gated == (ex_new && (conns[i].spec_latched() || conns[i].silence_pulled)) by {
-            assert(old(conns)[i].same_acct(&pre4[i])); assert(conns[i].same_except_gated(&pre4[i]));
+            assert(conns[i].same_except_gated(&pre4[i]));
+            assert(pre4[i].latch_wf());
+            assert(conns[i].stall_gated == (any_healthy && (pre4[i].spec_latched() || pre4[i].silence_pulled)));
         }
         // C03: the gate never excludes the last usable link
         if exists|i: int| 0 <= i < conns.len() && (#[trigger] conns[i]).usable(current_time_ms) {
@@ -644,7 +643,8 @@ GATE_SPLICES = [
                 assert(!conns[w].stall_gated);
             }
         }
-    }''', 'before'),
+    }''' % (_EXIT_ACCT % ('assert(conns[i].same_except_gated(&pre4[i])); assert(t1[i].same_acct(&pre4[i])); assert(t1[i].same_except_timeout(&old(conns)[i]));',
+                         'assert(conns[i].same_except_gated(&pre4[i])); assert(pre4[i].conn_timeout_ms == t1[i].conn_timeout_ms);')), 'before'),
 ]
 
 IDX_REQUIRES = ['gate_pre_ok(old(conns)@)', WF_SEL('old(conns)'),
